@@ -195,7 +195,11 @@ def claim_append(cx, res, kf):
         return Opaque("Value", "into", {"of": unref(st, argv[0])})
     eng.stubs = [
         (re.compile(r"^Cons::new::<"), h_new), (re.compile(r"^<I as IntoIterator>::into_iter$"), h_iter),
+        (re.compile(r"^<<I as IntoIterator>::IntoIter as IntoIterator>::into_iter$"), lambda e, st, fr, c, a, m: a[0]),
         (re.compile(r"^<<I as IntoIterator>::IntoIter as Iterator>::next$"), h_next),
+        # a size hint promises nothing about an arbitrary iterator beyond lower <= upper: arbitrary values
+        (re.compile(r"^<<I as IntoIterator>::IntoIter as Iterator>::size_hint$"),
+         lambda e, st, fr, c, a, m: Agg("tuple", None, [e.sym_int("usize", "hint_lo"), S.mk_option(e.sym_bool("hint_has_hi").e, e.sym_int("usize", "hint_hi"))])),
         (re.compile(r"^<Value as From<\(Value, Value\)>>::from$"), h_fresh),
         (re.compile(r"^Cons::(set_cdr|set_car)::<"), h_set), (re.compile(r"^Cons::cdr_mut$"), h_cdr_mut),
         (re.compile(r"^Value::as_cons_mut$"), h_as_cons_mut),
@@ -238,6 +242,10 @@ def claim_append(cx, res, kf):
             res.must_be_unsat(pc, "Value::append: reachable panic", onm)
             continue
         if not st.notes["in"]:
+            if t.kind == "RETURN":
+                from . import confirm as CF
+                res.must_be_unsat(pc, "Value::append returns before asking the iterator for a single element (a size hint promises nothing "
+                                  "about what an arbitrary iterator will yield)", CF.confirm(("conswalk",), res))
             continue
         arr = st.notes.get("arrivals", ())
         if arr and id(arr[0][1]) not in base_done:
